@@ -119,8 +119,19 @@ class Builder:
         for v in decls:
             if kids(v):
                 sh = [y for y in walk(kids(v)[0]) if y.get("k") == "BinaryOperator" and y.get("op") == "<<"]
-                if len(sh) == 1 and any(z.get("did") == self.level_p["did"] for z in walk(kids(sh[0])[1])):
-                    amt = strip(kids(sh[0])[1])
+                amt0 = None
+                i0 = strip(kids(v)[0])
+                if not sh and i0.get("k") in ("CallExpr", "CXXMemberCallExpr") and len(tbf.call_args(i0)) == 1 and (tbf.call_base(i0) is None or strip(tbf.call_base(i0)).get("k") == "CXXThisExpr"):
+                    # the limit through a one-expression helper of the same class: `return 1 << param`
+                    hs = [m for m in facts.methods_of(cls) if m["name"] == tbf.callee_name(i0) and not m.get("inst") and tbf.body(m) is not None and len(m["params"]) == 1]
+                    if len(hs) == 1:
+                        st = [x for x in kids(tbf.body(hs[0])) if x.get("k") != "NullStmt"]
+                        if len(st) == 1 and st[0].get("k") == "ReturnStmt" and kids(st[0]):
+                            hsh = [y for y in walk(kids(st[0])[0]) if y.get("k") == "BinaryOperator" and y.get("op") == "<<"]
+                            if len(hsh) == 1 and strip(kids(hsh[0])[1]).get("did") == hs[0]["params"][0]["did"] and any(z.get("did") == self.level_p["did"] for z in walk(tbf.call_args(i0)[0])):
+                                sh, amt0 = hsh, strip(tbf.call_args(i0)[0])
+                if len(sh) == 1 and (amt0 is not None or any(z.get("did") == self.level_p["did"] for z in walk(kids(sh[0])[1]))):
+                    amt = amt0 if amt0 is not None else strip(kids(sh[0])[1])
                     k_ = 0
                     while amt.get("k") == "ParenExpr":
                         amt = strip(kids(amt)[0])
@@ -299,8 +310,17 @@ def neighbour_filters(facts, b):
     fn = b.fn
     body = tbf.body(fn)
     t = facts.ntext(body)
+    # the offset seen through a local lambda: its parameter stands for the offset array at every call that passes it
+    lambdas = {v["did"]: strip(kids(v)[0]) for v in walk(body) if v.get("k") == "VarDecl" and kids(v) and strip(kids(v)[0]).get("k") == "LambdaExpr"}
+    curs = {b.cur}
+    for c_ in walk(body):
+        if c_.get("k") in ("CallExpr", "CXXOperatorCallExpr") and kids(c_) and strip(kids(c_)[0]).get("did") in lambdas:
+            lam = lambdas[strip(kids(c_)[0])["did"]]
+            for i, a_ in enumerate(kids(c_)[1:]):
+                if strip(a_).get("did") == b.cur and i < len(lam.get("params") or []):
+                    curs.add(lam["params"][i].get("did"))
     ne = [x for x in walk(body) if x.get("k") == "BinaryOperator" and x.get("op") == "!=" and strip(kids(x)[1]).get("k") == "IntegerLiteral" and strip(kids(x)[1]).get("val") == 0
-          and len(kids(strip(kids(x)[0]))) >= 2 and strip(kids(strip(kids(x)[0]))[-2]).get("did") == b.cur]
+          and len(kids(strip(kids(x)[0]))) >= 2 and strip(kids(strip(kids(x)[0]))[-2]).get("did") in curs]
     selfx = "offset" if len(ne) == 1 else None
     if selfx is None:
         # self exclusion by comparing the (wrapped) index of the candidate with the cell's own index
@@ -329,7 +349,13 @@ def neighbour_filters(facts, b):
     strict = False
     if len(flt) == 1:
         r = strip(kids(flt[0])[1])
-        strict = r.get("k") == "BinaryOperator" and r.get("op") == "<" and "lipow" in facts.ntext(kids(r)[0]) and "/2" in facts.ntext(kids(r)[0]).replace(" ", "")
+        lhs = strip(kids(r)[0]) if r.get("k") == "BinaryOperator" else None
+        if lhs is not None and lhs.get("k") == "DeclRefExpr":
+            # the middle code hoisted into a const local
+            dv = [v for v in walk(body) if v.get("k") == "VarDecl" and v.get("did") == lhs.get("did") and kids(v) and "const" in (v.get("t") or "")]
+            if len(dv) == 1:
+                lhs = strip(kids(dv[0])[0])
+        strict = r.get("k") == "BinaryOperator" and r.get("op") == "<" and "lipow" in facts.ntext(lhs) and "/2" in facts.ntext(lhs).replace(" ", "")
     return selfx, base, off, strict, (flt[0] if flt else None)
 
 
